@@ -282,9 +282,11 @@ const (
 	// test (<= 28) -> MkDir 6 + IsEmpty 15 + Ls 10 -> next test (31); file: Open + Create -> the copy's test; then <= 4 closes.
 	bCopy = 40
 	// move through copy+remove (Rename refused): MoveWithContext test -> Exists 5 + MkDir 6 + Rename 1 + IsDir 6 -> moveFolder
-	// test -> MkDir 6 + IsEmpty 15 + Ls 10 -> next test; the closing RemoveWithContext(src) of an emptied directory
-	// costs 41 before its test (see removal).
-	bMove = 48
+	// test -> MkDir 6 + IsEmpty 15 + Ls 10 -> next test; for an EMPTY source directory moveFolder goes from its test
+	// through MkDir 6 + IsEmpty 15 straight into RemoveWithContext(src), which costs 41 before its own test (see
+	// removal): 62. (First version of this table said 48 and was wrong: measured 54 on the empty directory of the
+	// 12-entry tree; the stretch does not depend on the size of the tree.)
+	bMove = 64
 	// unzip: per entry test -> MkDir 6 (+ MkDir of the parent 6) -> unzipZippedFile test -> OpenFile + zippedFile.Open
 	// (ReadAt of the local header + data) -> the copy's test; zip.NewReader reading the central directory of 300
 	// entries (8 ReadAt of 4 KiB + Seek) is not interruptible. After a failure: 2 closes.
